@@ -31,7 +31,7 @@ def apply(c, call, float_heights=False):
     float_heights the bar height (an exact Decimal in the harness) is handed over as the nearest float."""
     op, arg = call
     if _lib.AMBIENT:
-        with _lib.ambient('%s%r' % (op, arg)):
+        with _lib.ambient('%s%r' % (op, arg), strict=not float_heights):
             return _apply(c, op, arg, float_heights)
     return _apply(c, op, arg, float_heights)
 
